@@ -31,7 +31,8 @@ One output line per input line.  Producer: harness/collect_common.py.
   param p str|sized|iter|scalar|once tok …             (once = a one-shot iterator: generator / iter(...))
   kwargs                         → the list of kwargs dicts
   run iterations max_steps period [prog]                (prog: display_progress=True; no effect on the result)
-  runp iterations max_steps period number_processes [prog]   (rows compared after ordering the runs by RunId)
+  runp iterations max_steps period number_processes [late=j] [prog]   (rows compared after ordering the runs by RunId;
+                                 late=j: the runs of the design point of run j of the work list complete after the others)
   Values: N | int | L | Lx,y,…
 -/
 open Mesa.Collect Mesa.Batch
@@ -269,6 +270,16 @@ def runOut (d : DSt) (it ms : Nat) (per : Int) : String :=
   | .ok rows => " ".intercalate ("ok" :: rows.map fmtBRow)
   | .error e => fmtErr e
 
+def runLateOut (d : DSt) (it ms : Nat) (per : Int) (j : Nat) : String :=
+  match batchRunLate d.cls d.params it ms per j with
+  | .ok rows => " ".intercalate ("ok" :: rows.map fmtBRow)
+  | .error e => fmtErr e
+
+def parseLate (w : String) : Option Nat :=
+  match w.splitOn "=" with
+  | ["late", j] => j.toNat?
+  | _ => none
+
 def parsePVal (kind : String) (toks : List String) : Option (PVal String) :=
   match kind, toks with
   | "str", [t] => some (.str t)
@@ -370,6 +381,12 @@ def stepLine (d : DSt) (ws : List String) : DSt × String :=
           match it.toNat?, ms.toNat?, per.toInt?, np.toNat? with
           | some it, some ms, some per, some np => if np = 0 then (d, "bad-op") else (d, runOut d it ms per)
           | _, _, _, _ => (d, "bad-op")
+        | [it, ms, per, np, late] =>
+          -- a completion order other than the submission order: the runs of the design point of run j come back last
+          match it.toNat?, ms.toNat?, per.toInt?, np.toNat?, parseLate late with
+          | some it, some ms, some per, some np, some j =>
+            if np = 0 then (d, "bad-op") else (d, if np = 1 then runOut d it ms per else runLateOut d it ms per j)
+          | _, _, _, _, _ => (d, "bad-op")
         | _ => (d, "bad-op")
       | _ => (d, "bad-op")
 
